@@ -34,6 +34,11 @@ type Driver struct {
 	// replica, or a membership change is still pending, then the phase runs as usual)
 	DownOne bool
 	Down    map[uint64]bool
+	// text of every pooled message at the moment it was handed to the transport, keyed by the
+	// sequence number kept in the message's (otherwise unused) ShardID field: like the real
+	// send queue the pool holds the message value, whose entries may alias the sender's memory
+	sentText map[uint64]string
+	sentSeq  uint64
 }
 
 // pickDown chooses the replica to take down for the DownOne variant (0 = none).
@@ -155,6 +160,12 @@ func (d *Driver) Do(op string) Result {
 func (d *Driver) afterUpdate(n *Node, ud *pb.Update) {
 	for _, m := range ud.Messages {
 		if m.To != n.ID && m.To != 0 {
+			if d.sentText == nil {
+				d.sentText = map[uint64]string{}
+			}
+			d.sentSeq++
+			m.ShardID = d.sentSeq
+			d.sentText[m.ShardID] = FmtMsg(m)
 			d.Pool = append(d.Pool, m)
 		}
 	}
@@ -224,6 +235,10 @@ func (d *Driver) Deliver(i int, dup bool, lost bool, r *vh.Rand) {
 			}
 		}
 		return
+	}
+	if t, ok := d.sentText[m.ShardID]; ok && t != FmtMsg(m) {
+		// the sender changed the message after handing it to the transport (aliased entries)
+		d.Do(fmt.Sprintf("MUT %d", m.To))
 	}
 	d.Do(fmt.Sprintf("M %d %s", m.To, FmtMsg(m)))
 	if d.Stopped {
@@ -466,20 +481,28 @@ func (d *Driver) FairPhase(rounds int) string {
 	// replica can both win the witness's vote and serve the entry; nothing moves until the
 	// replica that is down returns (tagged so that the known finding matches only this)
 	maxVoter, maxWitness := uint64(0), uint64(0)
-	for _, id := range d.C.ids() {
-		if d.Down[id] {
-			continue
-		}
-		st := Inspect(c.Nodes[id])
-		if c.Nodes[id].Kind == 'W' {
-			if st.LastIndex > maxWitness {
-				maxWitness = st.LastIndex
+	{
+		var best *Node
+		for _, id := range d.C.ids() {
+			if n := c.Nodes[id]; best == nil || n.Applied > best.Applied {
+				best = n
 			}
-		} else if c.Nodes[id].Kind == 'V' && st.LastIndex > maxVoter {
-			maxVoter = st.LastIndex
+		}
+		for _, id := range d.C.ids() {
+			if d.Down[id] || best == nil {
+				continue
+			}
+			st := Inspect(c.Nodes[id])
+			if best.Mem.Witnesses[id] {
+				if st.LastIndex > maxWitness {
+					maxWitness = st.LastIndex
+				}
+			} else if best.Mem.Voters[id] && st.LastIndex > maxVoter {
+				maxVoter = st.LastIndex
+			}
 		}
 	}
-	if len(d.Down) > 0 && maxWitness > maxVoter {
+	if maxWitness > maxVoter {
 		down = " witness-ahead-no-electable-voter" + down
 	}
 	// a replica that applied its own removal (and stepped down) holds a longer log than every
